@@ -92,10 +92,14 @@ impl<T> InnerQueue<T> {
 
     pub fn try_recv(&self) -> Result<T, TryRecvError> {
         if !self.sem.try_wait() {
-            return match self.tx_ports.load(Ordering::Acquire) {
-                0 => Err(TryRecvError::Disconnected),
-                _ => Err(TryRecvError::Empty),
-            };
+            if self.tx_ports.load(Ordering::Acquire) != 0 {
+                return Err(TryRecvError::Empty);
+            }
+            // there is no sender any more, should re-check: the last sender
+            // may have sent and gone after our failed try
+            if !self.sem.try_wait() {
+                return Err(TryRecvError::Disconnected);
+            }
         }
 
         match self.queue.pop() {
